@@ -1,13 +1,54 @@
 #!/venv/bin/python
-"""Print a markdown table of the seeded defects and which checks detect them (from seeded/*/meta.json)."""
-import json, os
-root = "/verif/seeded"
-print("| seed | property | what it needs to manifest (from the sub-agent's notes) | quick | thorough |")
-print("|---|---|---|---|---|")
-for sid in sorted(os.listdir(root)):
-    m = json.load(open(os.path.join(root, sid, "meta.json")))
+"""Regenerate DESIGN.md section 6.5 (between the seeds:begin / seeds:end markers) from seeded/*/meta.json.
+
+usage: tools/seedtable.py [--print]   (default: rewrite DESIGN.md in place)
+"""
+import collections, json, os, re, sys
+
+ROOT = "/verif/seeded"
+rows = []
+stats = collections.Counter()
+undetected = []
+for sid in sorted(os.listdir(ROOT)):
+    m = json.load(open(os.path.join(ROOT, sid, "meta.json")))
     det = m.get("detection", {})
+
     def v(t):
-        if t not in det: return "–"
-        return "; ".join(x.replace(" violations=", " (") + ")" if "violations=" in x else x for x in det[t]["verdicts"]) or "?"
-    print(f"| {sid} | {m['property']} | {m.get('summary', m.get('needs_to_manifest',''))[:160]} | {v('quick')} | {v('thorough')} |")
+        if t not in det:
+            return "not run"
+        out = []
+        for x in det[t]["verdicts"]:
+            mm = re.match(r"(DETECTED|MISSED|ERROR\S*) (C\d+) \w+ violations=(\d+)", x)
+            out.append(f"{mm.group(2)}: {'**detected**' if mm.group(1) == 'DETECTED' else mm.group(1).lower()}" if mm else x)
+        return "; ".join(out) or "?"
+
+    q = det.get("quick", {}).get("verdicts", [])
+    own = [x for x in q if f" {m['property']} " in x]
+    own_hit = any(x.startswith("DETECTED") for x in own)
+    any_hit = any(x.startswith("DETECTED") for x in q)
+    stats["seeds"] += 1
+    stats["own" if own_hit else ("other" if any_hit else "none")] += 1
+    if not any_hit:
+        undetected.append(sid)
+    rows.append(f"| {sid} | {m.get('summary', '')} | {v('quick')} |")
+
+wave = collections.Counter(s.split("-")[1] for s in os.listdir(ROOT))
+text = []
+text.append(f"{stats['seeds']} seeded changes (waves {', '.join(sorted(wave))}; {', '.join(f'{k}: {n}' for k, n in sorted(wave.items()))}), each written by an independent sub-agent that saw only the property text and a scratch worktree, each confirmed by me in a scratch worktree (patch applies to /repo HEAD, the 340-test baseline still passes, the agent's demo passes on the unchanged tree and fails with the patch).")
+text.append("")
+text.append(f"At the quick tier **{stats['own']}** are detected by the check of the property they were written against, **{stats['other']}** only by the check of a neighbouring property (named in the row), **{stats['none']}** by none" + (f" ({', '.join(undetected)}; discussed below)." if undetected else "."))
+text.append("")
+text.append("| seed | what the change does / what it needs to manifest | quick-tier verdicts (`tools/seedmatrix.py quick`) |")
+text.append("|---|---|---|")
+text += rows
+block = "\n".join(text)
+if "--print" in sys.argv:
+    print(block)
+else:
+    p = "/verif/DESIGN.md"
+    s = open(p).read()
+    a, b = "<!-- seeds:begin -->", "<!-- seeds:end -->"
+    assert a in s and b in s, "markers missing in DESIGN.md"
+    s = s[: s.index(a) + len(a)] + "\n" + block + "\n" + s[s.index(b) :]
+    open(p, "w").write(s)
+    print(f"DESIGN.md section 6.5 rewritten: {stats}")
